@@ -167,6 +167,16 @@ func genC12Garbage(r *Rng, tier string) *Plan {
 			g = string(b)
 		}
 		p.Ops = append(p.Ops, Op{Kind: "raw", S: g, C: r.Intn(2)})
+		if r.Chance(0.25) {
+			// the client goes away in the middle of a frame (or right after a command whose reply is large)
+			b := EncodeCmd("SET", "k", strings.Repeat("v", r.Range(1, 3000)))
+			cut := r.Range(1, len(b))
+			if r.Chance(0.3) {
+				b = EncodeCmd("ECHO", strings.Repeat("e", r.Range(900, 9000)))
+				cut = len(b)
+			}
+			p.Ops = append(p.Ops, Op{Kind: "rawclose", S: string(b[:cut]), C: r.Intn(2)})
+		}
 	}
 	return p
 }
@@ -194,6 +204,22 @@ func runC12Garbage(t *testing.T, p *Plan) *Outcome {
 		for i, op := range p.Ops {
 			c := conns[op.C%2]
 			classes = append(classes, strconv.Quote(trunc(op.S, 12)))
+			if op.Kind == "rawclose" {
+				_, _ = c.conn.Write([]byte(op.S))
+				c.Close()
+				s.Settle()
+				s.Stats.FaultsFired["connection-closed-mid-frame"]++
+				if c.SrvPanic != "" {
+					fail("server-panic/"+topRepoFrame(c.SrvPanic), fmt.Sprintf("connection closed after %q: %s", trunc(op.S, 40), c.SrvPanic))
+					break
+				}
+				if pr := probe.DoSync("PING"); pr.Reply.Str != "PONG" {
+					fail("other-connection-affected/closed-mid-frame", fmt.Sprintf("after a connection was closed in the middle of %q the probe PING got %s", trunc(op.S, 40), pr))
+					break
+				}
+				conns[op.C%2] = s.NewTCPClient(inst, fmt.Sprintf("g%d.%d", op.C%2, i))
+				continue
+			}
 			_, _ = c.conn.Write([]byte(op.S))
 			s.Settle()
 			raw := c.conn.Take()
